@@ -1,6 +1,7 @@
 (* Props/C08.v — C08: every primary expecting a reply is answered exactly once, with the same system bytes.
    Theorems only.  Model: Model/Dispatch.v over the callback tables regenerated into Gen/Callbacks.v. *)
 From SG Require Import Base.Prelude Gen.Callbacks Model.Dispatch Proofs.DispatchProofs.
+From SG Require Import Gen.SecsDispatch Proofs.SecsDispatchProofs.
 Open Scope Z_scope.
 
 (* what the regenerated tables say about the shipped callbacks: each way of returning is the secondary (same stream,
@@ -41,3 +42,15 @@ Example C08_examples :
   possible equipment_callbacks 2 41 (OReturn (KSentNone 2 42)) = true /\
   dispatch (((99, 1), [KReply 99 2]) :: equipment_callbacks) 99 1 true ORaise = [RS9F5] /\ dispatch (((1, 65), [KReply 1 66]) :: equipment_callbacks) 1 65 true ORaise = [RAbort 1].
 Proof. repeat split. Qed.
+
+(* The dispatch itself is tied to the source by a theorem: SecsHandler._handle_stream_function and _handle_unknown_functions are read statement by
+   statement on every run (harness/gen_dispatch.py -> Gen/SecsDispatch.v; recognised: no callback -> the unknown-function answer; call the callback
+   and send a result that is not None; on an exception send SxF0, or the unknown-function answer when the catalogue has none; S9F5 with the header
+   only for a W-bit; every response with the message's system bytes).  For every callback table, every message and every way the callback can
+   finish, the replies of the model's `dispatch` are what the callback sent itself followed by the regenerated decision carried out. *)
+Theorem C08_dispatch_code_is_model : forall tab s f w o,
+  let registered := match lookup_cb tab s f with Some _ => true | None => false end in
+  dispatch tab s f w o =
+  ((if registered then own_sends o else []) ++ map (act_reply s o) (secs_dispatch registered (raised o) (result_none o) (has_abort s) w))%list.
+Proof. exact dispatch_code_is_model. Qed.
+Print Assumptions C08_dispatch_code_is_model.
